@@ -18,6 +18,9 @@ struct Out {
     void line(const std::string &l) { s += l; s += '\n'; }
 };
 
+// which copy of programs and library a run uses: 0 = clang -O1 -DNDEBUG, 1 = clang -O0 with unsigned plain char, 2 = gcc -O2 -DNDEBUG
+// (one draw whatever the outcome, so that plans of other seeds keep the rest of their shape)
+static int pick_copy(Rng &r, double p_other) { double x = (double)r.below(1000000) / 1e6; return x < p_other * 0.55 ? 1 : x < p_other ? 2 : 0; }
 static std::string sched_str(Rng &r) {
     switch (r.below(6)) {
     case 0: return strf("rand:%.2f", 0.02 + 0.01 * r.below(10));
@@ -193,7 +196,7 @@ static std::string gen_tunnel(uint64_t seed, uint64_t idx, bool thorough) {
     int port = r.chance(0.3) ? (int)(int[]){1025, 17221, 20000, 40000, 65535}[r.below(5)] : 0;
     int addr = r.chance(0.3) ? (int)r.range(1, 3) : 0;  // destination MAC / IP address variants (multicast bit, bytes >= 0x80, octets 0 and 255)
     o.line(strf("cfg scen=tunnel env=%d addr=%d port=%d longnames=%d argorder=%d stackfill=%d udp=%d fd=%d tscf=%d count=%d o0=%d ethpad=%d read0=%.2f clkgran=%llu sched=%s lat=%llu:%llu cost=%llu:%llu qcap=%zu tend=%llu rseed=0x%llx skew0=%lld skew1=%lld",
-                (int)r.chance(0.25), addr, port, (int)r.chance(0.3), (int)r.coin(), stackfill, udp, fd, tscf, count, (int)r.chance(0.3), (int)(!udp && r.chance(0.4)), read0, (unsigned long long)clkgran, sched_str(r).c_str(), (unsigned long long)lat_lo, (unsigned long long)lat_hi,
+                (int)r.chance(0.25), addr, port, (int)r.chance(0.3), (int)r.coin(), stackfill, udp, fd, tscf, count, pick_copy(r, 0.3), (int)(!udp && r.chance(0.4)), read0, (unsigned long long)clkgran, sched_str(r).c_str(), (unsigned long long)lat_lo, (unsigned long long)lat_hi,
                 (unsigned long long)r.range(50, 500), (unsigned long long)r.range(500, 20000), qcap, (unsigned long long)tend,
                 (unsigned long long)r.next(), (long long)big_skew(r), (long long)big_skew(r)));
     for (auto &f : frames) o.line(f);
@@ -571,7 +574,7 @@ static std::string gen_c18(uint64_t seed, uint64_t idx, bool thorough) {
         uint64_t drain = 60000000ULL, tend = 2000000 + n * dt + drain + ((scen == "cvf" || scen == "aaf") ? 200000000ULL : 5000000000ULL);
         o.line(strf("plan v1 engine=net prop=C18 seed=0x%llx idx=%llu", (unsigned long long)seed, (unsigned long long)idx));
         o.line(strf("cfg scen=%s udp=%d fd=0 tscf=%d count=1 mtt=%d soak=1 o0=%d ethpad=0 sched=rtb lat=%llu:%llu cost=%llu:%llu qcap=256 tend=%llu drain=%llu quiet=0 rseed=0x%llx skew0=0 skew1=0 skew2=0",
-                    scen.c_str(), udp, (int)tscf, (int)r.range(0, 5), (int)r.coin(), (unsigned long long)r.range(1000, 20000), (unsigned long long)r.range(20000, 100000),
+                    scen.c_str(), udp, (int)tscf, (int)r.range(0, 5), pick_copy(r, 0.5), (unsigned long long)r.range(1000, 20000), (unsigned long long)r.range(20000, 100000),
                     (unsigned long long)r.range(50, 200), (unsigned long long)r.range(200, 1000), (unsigned long long)tend, (unsigned long long)drain, (unsigned long long)r.next()));
         if (scen == "cvf" || scen == "aaf")
             o.line(strf("inrep t=1000000 dt=%llu n=%llu node=0 kind=%s seed=0x%llx", (unsigned long long)dt, (unsigned long long)n, scen == "cvf" ? "nal" : "pcm", (unsigned long long)r.next()));
@@ -610,7 +613,7 @@ static std::string gen_c18(uint64_t seed, uint64_t idx, bool thorough) {
     // what a never-written local variable reads: mostly 0xA5 (a wild value), sometimes zero or small values (what a real, used stack tends to hold)
     int stackfill = r.chance(0.6) ? 0xA5 : (int[]){0x00, 0x00, 0xFF, 0x01}[r.below(4)];
     o.line(strf("cfg scen=%s env=%d argorder=%d stackfill=%d udp=%d fd=%d tscf=%d count=%d mtt=%d cantxq=%d lstack=%d o0=%d ethpad=%d sched=%s lat=%llu:%llu cost=%llu:%llu qcap=%zu tend=%llu drain=%llu quiet=%llu rseed=0x%llx skew0=%lld skew1=%lld skew2=%lld",
-                scen.c_str(), (int)r.chance(0.25), (int)r.coin(), stackfill, udp, fd, tscf, count, mtt, cantxq, lstack, (int)r.chance(0.35), (int)(!udp && r.chance(0.3)), sched_str(r).c_str(), (unsigned long long)r.range(1000, 50000),
+                scen.c_str(), (int)r.chance(0.25), (int)r.coin(), stackfill, udp, fd, tscf, count, mtt, cantxq, lstack, pick_copy(r, 0.35), (int)(!udp && r.chance(0.3)), sched_str(r).c_str(), (unsigned long long)r.range(1000, 50000),
                 (unsigned long long)r.range(50000, 1000000), (unsigned long long)r.range(50, 500), (unsigned long long)r.range(500, 20000), qcap,
                 (unsigned long long)tend, (unsigned long long)drain, (unsigned long long)t2, (unsigned long long)rseed, (long long)r.range(0, 20000000) - 10000000,
                 (long long)r.range(0, 20000000) - 10000000, (long long)r.range(0, 20000000) - 10000000));
